@@ -45,7 +45,7 @@ def base_scn(rng, sched):
     scn.lineup = [(c, min(bs, 3), script, seed) for (c, bs, script, seed) in scn.lineup[:4]]
     scn.lineup = [(c, bs, [call[:bs] for call in script], seed) for (c, bs, script, seed) in scn.lineup]
     nb = rng.randint(2, 6)
-    scn.ops = [("C", nb), ("C", 1)]
+    scn.ops = [("C", nb), ("C", 2 if sched == "rl" else 1)]       # RL: two batches, so that a broken exchange shows as a hang
     scn.folder = rng.random() < 0.5 and sched == "rr"
     scn.conv = None
     if sched == "rl":
@@ -106,8 +106,8 @@ def run(chk: Check):
                 second = lines[2]
                 if not second.startswith("ok "):
                     chk.fail(f"calibrate() after the failure did not work: {second[:80]}", case)
-                elif int(hist_fields(second)["b"]) != nb + 1:
-                    chk.fail(f"calibrate(1) after the failure ended with {hist_fields(second)['b']} batches, expected {nb + 1}", case)
+                elif int(hist_fields(second)["b"]) != nb + scn.ops[1][1]:
+                    chk.fail(f"calibrate({scn.ops[1][1]}) after the failure ended with {hist_fields(second)['b']} batches, expected {nb + scn.ops[1][1]}", case)
             left = [t for t in threading.enumerate() if t.ident not in threads0 and t.is_alive()]
             if left:
                 chk.fail(f"{len(left)} background thread(s) left running after calibrate() raised/returned", case)
